@@ -159,3 +159,95 @@ func Harness_C11_reader_does_not_keep_drive() {
 	vm.Assert("C11.read_count", n == k)
 	vm.Assert("C11.no_helper_parked_holding_locks", vm.PipesParkedWithLocks() == 0)
 }
+
+// ---- interleavings at lock boundaries ----
+
+var c11LinNames = []string{"/d", "/d/x", "/f"}
+
+func c11LinPrestate() *verifFS {
+	v := verifNewFS(config.PipeConfig{}, false, true)
+	v.rootOnly()
+	v.Env.AddEntry("/d", tar.TypeDir, 0, false, "")
+	v.Env.AddEntry("/f", tar.TypeReg, 0, false, "")
+	return v
+}
+
+func c11LinCall(v *verifFS, op int, name string) error {
+	switch op {
+	case 0:
+		return v.FS.Mkdir(name, 0o755)
+	case 1:
+		h, err := v.FS.Create(name)
+		if err != nil {
+			return err
+		}
+		return h.Close()
+	case 2:
+		return v.FS.Remove(name)
+	case 3:
+		return v.FS.RemoveAll(name)
+	case 4:
+		return v.FS.Rename(name, "/r")
+	default:
+		return v.FS.MkdirAll(name, 0o755)
+	}
+}
+
+// c11LinOutcome: what two callers and a later observer can tell — which call succeeded and which names exist as what.
+func c11LinOutcome(v *verifFS, ea, eb error) [7]int {
+	var o [7]int
+	if ea == nil {
+		o[0] = 1
+	}
+	if eb == nil {
+		o[1] = 1
+	}
+	for i, n := range []string{"/d", "/d/x", "/f", "/r", "/r/x"} {
+		for _, r := range v.Env.P.VerifRows() {
+			if r.Deleted != 1 && r.Name == n {
+				o[2+i] = 1 + int(r.Typeflag)
+			}
+		}
+	}
+	return o
+}
+
+// Harness_C11_interleaving_at_lock_boundaries: call B is executed where a second caller waiting for the io lock would
+// get to run — right after the first or the second release of the lock inside call A (calls that take the lock once
+// release it when they are done). Whatever A and B are, the two results and the resulting tree are those of A then B
+// or of B then A. This is a real interleaving (B's effects are visible to the rest of A), so it also covers schedules
+// in which A's control flow differs from a run on its own.
+func Harness_C11_interleaving_at_lock_boundaries() {
+	opA, opB := vm.Choice("opA", 6), vm.Choice("opB", 6)
+	nameA, nameB := c11LinNames[vm.Choice("nameA", len(c11LinNames))], c11LinNames[vm.Choice("nameB", len(c11LinNames))]
+	skip := vm.Choice("releasesBeforeB", 2)
+
+	v1 := c11LinPrestate()
+	a1 := c11LinCall(v1, opA, nameA)
+	b1 := c11LinCall(v1, opB, nameB)
+	ab := c11LinOutcome(v1, a1, b1)
+
+	v2 := c11LinPrestate()
+	b2 := c11LinCall(v2, opB, nameB)
+	a2 := c11LinCall(v2, opA, nameA)
+	ba := c11LinOutcome(v2, a2, b2)
+
+	v3 := c11LinPrestate()
+	var b3 error
+	ran := false
+	vm.UnlockHookMutex, vm.UnlockHookSkip = &v3.FS.ioLock, skip
+	vm.UnlockHook = func() {
+		ran = true
+		b3 = c11LinCall(v3, opB, nameB)
+	}
+	a3 := c11LinCall(v3, opA, nameA)
+	vm.UnlockHook = nil
+	if !ran {
+		// A released the lock fewer times than that: B runs after it
+		b3 = c11LinCall(v3, opB, nameB)
+	}
+	got := c11LinOutcome(v3, a3, b3)
+	vm.Assert("C11.interleaved_outcome_is_a_sequential_one", got == ab || got == ba)
+	vm.Assert("C11.interleaved_locks_free", v3.Env.LocksFree())
+	vm.Cover("C11.b_ran_inside_a", ran && skip == 0)
+}
